@@ -276,7 +276,7 @@ def magnitudes(rng, tier):
         ms.append((1 << (8 * nbytes)) - 1)
     for bits in (31, 32, 33, 63, 64, 65, 127, 128, 129):
         ms.append(rng.getrandbits(bits) | (1 << (bits - 1)))
-    k = 30 if tier == "quick" else 500
+    k = 30 if tier == "quick" else 1500
     for _ in range(k):
         ms.append(rng.getrandbits(rng.randrange(1, 700 if tier == "quick" else 5000)))
     return ms
@@ -358,7 +358,7 @@ def gen_int(rng, tier):
 
 
 def gen_float(rng, tier):
-    n = 250 if tier == "quick" else 5000
+    n = 250 if tier == "quick" else 12000
     # binary floats
     for _ in range(n):
         bits = rng.choice([1, 2, 5, 8, 16, 31, 32, 33, 34, 40, 63, 64, 65, 100, 128, 129, 200, 400])
@@ -452,7 +452,7 @@ def gen_float(rng, tier):
 
 
 def gen_ratio(rng, tier):
-    n = 300 if tier == "quick" else 6000
+    n = 300 if tier == "quick" else 12000
     bitsizes = [1, 3, 8, 16, 31, 32, 33, 40, 63, 64, 65, 100, 128, 129, 200, 300]
     for _ in range(n):
         a = rng.getrandbits(rng.choice(bitsizes)); b = rng.getrandbits(rng.choice(bitsizes)) or 1
@@ -600,7 +600,7 @@ def gen_magnitudes(rng, tier):
     """boundary classes for k of EVERY bit length (ROUND4 addendum E2): 2^k - 1, 2^k, 2^k + 1 as integer literal, as float
     significand (binary, hexadecimal, decimal 10^n ± 1), as numerator / denominator; r^n ± 1 around the const (2^32), DoubleWord
     (2^64 / 2^128) boundaries for every radix"""
-    kmax = 140 if tier == "quick" else 400
+    kmax = 140 if tier == "quick" else 800
     for k in range(1, kmax + 1):
         for m in (2 ** k - 1, 2 ** k, 2 ** k + 1):
             kind = rng.choice(["ubig", "ibig"]); mode = rng.choice(["plain", "static"])
